@@ -514,7 +514,7 @@ func c02Rebuilt(t schema.Type) (rt schema.Type, ok bool) {
 }
 
 func runC02(c *wk.Ctx) {
-	c.Meta("rule", "(a) ENUMERATED: int schemas over 5x5 min/max choices (absent, ordinary, 0, +-2^63 edges, min>max) x 3 unit settings; float schemas 5x5 bounds (incl. +-Inf, -0) x 2 unit settings; string schemas 4x4 length bounds x 4 patterns; bool; pattern; int enums with/without units; string and typed string enums - each against its boundary set (every bound and bound+-1, 0, +-1, +-2^63, 2^53+-1) in every Go representation (10 integer widths, float32/64, decimal / unit / malformed strings, boolean words in 3 casings, nil, containers, []byte, named scalar types). (b) SAMPLED: generated lists/maps/any (depth<=2) over generated scalars with valid inputs in random representations, CBOR images, near-boundary perturbations, exact size-boundary collections (min-1, min, max, max+1 entries). Oracle: an independent reference interpreter (internal/ref) with verdicts must-accept(value) / must-reject / unspecified; on unspecified only 'an accepted result satisfies every declared constraint' is required. Natives: every accepted result is mutated to violate exactly one constraint; Validate and Serialize must both reject it. non-trivial = the raw value sits on a boundary or is not in the native representation; distinct = hash(schema, raw)")
+	c.Meta("rule", "(a) ENUMERATED: int schemas over 5x5 min/max choices (absent, ordinary, 0, +-2^63 edges, min>max) x 3 unit settings; float schemas 5x5 bounds (incl. +-Inf, -0) x 2 unit settings; string schemas 4x4 length bounds x 4 patterns; bool; pattern; int enums with/without units; string and typed string enums - each against its boundary set (every bound and bound+-1, 0, +-1, +-2^63, 2^53+-1) in every Go representation (10 integer widths, float32/64, decimal / unit / malformed strings, boolean words in 3 casings, nil, containers, []byte, named scalar types). (b) SAMPLED: generated lists/maps/any (depth<=2) over generated scalars with valid inputs in random representations, CBOR images, near-boundary perturbations, exact size-boundary collections (min-1, min, max, max+1 entries). Oracle: an independent reference interpreter (internal/ref) with verdicts must-accept(value) / must-reject / unspecified; on unspecified only 'an accepted result satisfies every declared constraint' is required. Natives: every accepted result is mutated to violate exactly one constraint; Validate and Serialize must both reject it. non-trivial = the raw value sits on a boundary or is not in the native representation; distinct = hash(schema, raw) Every enumerated case, and every third sampled schema, is also judged on the schema rebuilt from the description of a scope that uses it (what a client holds).")
 	c.Meta("assumptions", []string{"the reference fixes only the conversions the statement names (integer/float widths, numeric strings, unit strings, boolean words); bool->number, float->string, named scalar types, bare numbers for unit schemas and colliding map keys are unspecified",
 		"string lengths are byte lengths (what the SDK documents and all three paths use)"})
 	enum := c02Enumerated()
